@@ -38,7 +38,8 @@ func Sanitize(query string) string {
 		case c == ' ' || c == '\t' || c == '\n' || c == '\r':
 			i++
 		case c == '-' && strings.HasPrefix(query[i:], "--"):
-			for i < len(query) && query[i] != '\n' {
+			// A line comment ends at a line break; the scanner reads a lone CR as one.
+			for i < len(query) && query[i] != '\n' && query[i] != '\r' {
 				i++
 			}
 		case c == '/' && strings.HasPrefix(query[i:], "/*"):
@@ -74,7 +75,13 @@ func Sanitize(query string) string {
 			for j < len(query) && (isIdentChar(rune(query[j])) || query[j] >= 0x80) {
 				j++
 			}
-			switch word := strings.ToLower(query[i:j]); {
+			word := strings.ToLower(query[i:j])
+			if state == seenFor && j < len(query) && query[j] == '"' {
+				// The scanner reads abc"def" as a single identifier: let the quoted part end the user name.
+				i = j
+				continue
+			}
+			switch {
 			case state == wantsPassword:
 				// A password that was not quoted (an invalid query).
 				redact(i, j)
